@@ -638,10 +638,13 @@ def tlc_export_edges(module, cfg, timeout=900, xmx="4g"):
     os.makedirs(cdir, exist_ok=True)
     cpath = os.path.join(cdir, "%s-%s.json" % (os.path.basename(cfg), key))
     if os.path.exists(cpath):
-        d = json.load(open(cpath))
-        r = TlcResult(0, d["tail"], 0.0)
-        r.cached = True
-        return d["hists"], r
+        try:
+            d = json.load(open(cpath))
+            r = TlcResult(0, d["tail"], 0.0)
+            r.cached = True
+            return d["hists"], r
+        except (ValueError, KeyError, OSError):
+            pass        # an unreadable cache entry (e.g. from an interrupted run) is recomputed
     r = tlc(module, cfg, workers=8, timeout=timeout, xmx=xmx)
     if not r.ok:
         raise Broken("TLC export %s/%s failed rc=%d\n%s" % (module, cfg, r.rc, r.out[-3000:]))
@@ -650,9 +653,10 @@ def tlc_export_edges(module, cfg, timeout=900, xmx="4g"):
         hists.append(json.loads(m.group(1).replace('\\"', '"').replace("\\\\", "\\")))
     hists.sort(key=lambda x: json.dumps(x, sort_keys=True))   # order independent of worker scheduling
     tail = "\n".join(ln for ln in r.out.splitlines() if "EDGE" not in ln)[-3000:]
-    with open(cpath + ".tmp", "w") as f:
+    tmpc = "%s.%d.tmp" % (cpath, os.getpid())      # (checks running side by side must not write into one temporary file)
+    with open(tmpc, "w") as f:
         json.dump({"hists": hists, "tail": tail}, f)
-    os.replace(cpath + ".tmp", cpath)
+    os.replace(tmpc, cpath)
     # exports of earlier versions of the specification are of no use any more
     for old in os.listdir(cdir):
         if old.startswith(os.path.basename(cfg) + "-") and old != os.path.basename(cpath) and not old.endswith(".tmp"):
